@@ -367,7 +367,10 @@ class J1939_22:
         # check receive buffers for timeout
         # using 'list(x)' to prevent 'RuntimeError: dictionary changed size during iteration'
         for bufid in list(self._rcv_buffer):
-            buf = self._rcv_buffer[bufid]
+            buf = self._rcv_buffer.get(bufid)
+            if buf is None:
+                # removed by the receive path since the snapshot of the keys was taken
+                continue
             if buf['deadline'] != 0:
                 if buf['deadline'] > now:
                     if next_wakeup > buf['deadline']:
@@ -377,9 +380,13 @@ class J1939_22:
                     logger.info('Deadline reached for rcv_buffer src 0x%02X dst 0x%02X', buf['src_address'], buf['dest_address'] )
                     if buf['dest_address'] != ParameterGroupNumber.Address.GLOBAL:
                         self.__send_tp_abort(buf['dest_address'], buf['src_address'], buf['session'], self.ConnectionAbortReason.TIMEOUT, buf['pgn'])
-                        del self._rcv_buffer[bufid]
+                        if self._rcv_buffer.get(bufid) is buf:
+                            # (the receive path may have finished or replaced it meanwhile)
+                            del self._rcv_buffer[bufid]
                     else:
-                        del self._rcv_buffer[bufid]
+                        if self._rcv_buffer.get(bufid) is buf:
+                            # (the receive path may have finished or replaced it meanwhile)
+                            del self._rcv_buffer[bufid]
                     # TODO: should we notify our CAs about the cancelled transfer?
 
         # check multi-pg send buffers for timeout
